@@ -77,6 +77,7 @@ def run(rep, tier):
     layouts = lay["layouts"]
     universe = [tuple(v[:2]) for _, _, v in acc]
     graal = set(T.magics.get("GRAAL3_MAGICS", ()))
+    pypy3 = set(T.magics.get("PYPY3_MAGICS", ()))
     from .c06 import PYPY_CORPUS, release_magics
     released = release_magics(ref_json("magic_registry.json")) | set(PYPY_CORPUS)
     groups = collections.OrderedDict()
@@ -159,6 +160,9 @@ def run(rep, tier):
                     need = True
                 elif v2 >= (3, 0):
                     need = True if fname in BYTES_FIELDS_PY3 else None
+                    if passed in pypy3 and fname in TEXT_FIELDS_PY2:
+                        # PyPy 3.x marshals identifiers with TYPE_STRING (test/bytecode_3.2pypy): read as bytes they end up as b'name'
+                        need = False
                 else:
                     need = False if fname in TEXT_FIELDS_PY2 else None
                 if need is not None and b is not need:
